@@ -22,6 +22,8 @@ func c10(c *Ctx) {
 	// R5: the name handed to the by-name lookup is derived from the caller's designation by exact operations only (shared
 	// with C01.R4 / C06.R4): a character-set trim or a lossy rewrite looks up some other symbol's name
 	checkExactNameDerivation(p, r, "C10.R5")
+	checkSymbolCopyComplete(p, r, "C10.R3")
+	checkLookupErrorReaches(p, r, "C10.R3")
 	// R6: the symbol table the lookups read is published before any lookup can read it — every entry point passes the
 	// sync.Once before it reaches the lazily loaded table (C11.R1 on the two table variables)
 	if !c.importing {
@@ -717,6 +719,220 @@ func reachableAvoiding(from, to ssa.Instruction, avoid func(ssa.Instruction) boo
 	for k, i := range b.Instrs {
 		if i == from {
 			return scan(b, k+1)
+		}
+	}
+	return false
+}
+
+// checkSymbolCopyComplete: C10.R3 clause — where the symbols read from the executable are copied into the table the by-name
+// lookups search (a loop that appends gosym.Sym values built from the elements of a list), the loop visits every element:
+// it is a range over that list, or counts i = 0, 1, … while i < len(list) with no slack. A shorter loop makes present
+// symbols "not found".
+func checkSymbolCopyComplete(p *Prog, r *Report, rule string) {
+	n := 0
+	for _, f := range p.FuncsIn(uxPkg) {
+		if f.Blocks == nil {
+			continue
+		}
+		k := NewKeyer(f)
+		eachInstr(f, func(i ssa.Instruction) {
+			cl, ok := i.(*ssa.Call)
+			if !ok {
+				return
+			}
+			bi, ok := cl.Call.Value.(*ssa.Builtin)
+			if !ok || bi.Name() != "append" {
+				return
+			}
+			sl, ok := cl.Type().Underlying().(*types.Slice)
+			if !ok || !strings.HasSuffix(sl.Elem().String(), "gosym.Sym") {
+				return
+			}
+			// the source list: what the appended value's fields are read from
+			var srcIdx *ssa.IndexAddr
+			var walk func(v ssa.Value, depth int)
+			seen := map[ssa.Value]bool{}
+			walk = func(v ssa.Value, depth int) {
+				if v == nil || seen[v] || depth > 16 || srcIdx != nil {
+					return
+				}
+				seen[v] = true
+				if ia, ok := v.(*ssa.IndexAddr); ok {
+					if _, isSl := ia.X.Type().Underlying().(*types.Slice); isSl && !strings.HasSuffix(ia.X.Type().String(), "gosym.Sym") {
+						srcIdx = ia
+						return
+					}
+				}
+				if ins, ok := v.(ssa.Instruction); ok {
+					for _, op := range ins.Operands(nil) {
+						walk(*op, depth+1)
+					}
+				}
+				if al, ok := v.(*ssa.Alloc); ok {
+					for _, ref := range *al.Referrers() {
+						if st, ok := ref.(*ssa.Store); ok && st.Addr == ssa.Value(al) {
+							walk(st.Val, depth+1)
+						}
+						if fa, ok := ref.(*ssa.FieldAddr); ok {
+							for _, r2 := range *fa.Referrers() {
+								if st, ok := r2.(*ssa.Store); ok {
+									walk(st.Val, depth+1)
+								}
+							}
+						}
+						if ia2, ok := ref.(*ssa.IndexAddr); ok {
+							for _, r2 := range *ia2.Referrers() {
+								if st, ok := r2.(*ssa.Store); ok {
+									walk(st.Val, depth+1)
+								}
+							}
+						}
+					}
+				}
+			}
+			walk(cl.Call.Args[1], 0)
+			if srcIdx == nil {
+				return
+			}
+			n++
+			// the guard that lets the loop body run: idx - len(list) < 0 exactly
+			lenKey := "len(" + k.Key(srcIdx.X) + ")"
+			okBound := false
+			for _, g := range guardsAt(cl.Block()) {
+				bo, ok := g.Cond.(*ssa.BinOp)
+				if !ok || !g.Pol {
+					continue
+				}
+				form := map[string]int64{}
+				var konst int64
+				linForm(k, bo.X, 1, form, &konst, 0)
+				linForm(k, bo.Y, -1, form, &konst, 0)
+				idx := map[string]int64{}
+				var ic int64
+				linForm(k, srcIdx.Index, 1, idx, &ic, 0)
+				// express through the index: subtract the index form
+				for key, c := range idx {
+					form[key] -= c
+				}
+				konst -= ic
+				rest := 0
+				for key, c := range form {
+					if c != 0 && key != lenKey {
+						rest++
+					}
+				}
+				if rest == 0 && form[lenKey] == -1 && bo.Op == token.LSS && konst == 0 {
+					okBound = true // idx - len < 0
+				}
+			}
+			first, step, okL := loopIndex(stripConstAdd(srcIdx.Index))
+			_ = first
+			r.Check(okBound && okL && step == 1, rule, "every symbol read is entered into the table in "+shortName(f), p.Pos(posOf(cl)), "the copying loop runs while index < len(list), step 1",
+				"the loop that copies the executable's symbols into the lookup table stops before the end of the list (or skips elements): symbols that are present in the binary are reported as not found")
+		})
+	}
+	if n == 0 {
+		r.Und(rule, "symbol copy loop", "", "no loop appending gosym.Sym values built from a list found in package unexports2")
+	}
+}
+
+// checkLookupErrorReaches: C10.R3 clause — in a function of package unexports2 that has an error result and asks one of
+// the by-name symbol helpers (a module function returning (*gosym.Sym | *gosym.Func, error)), every return that can be
+// reached on the side of the test where that helper's error is non-nil carries an error derived from it (or the function
+// panics): a lookup that failed is never reported as (zero, nil).
+func checkLookupErrorReaches(p *Prog, r *Report, rule string) {
+	n := 0
+	for _, f := range p.FuncsIn(uxPkg) {
+		if f.Blocks == nil || errIndex(f.Signature) < 0 {
+			continue
+		}
+		ei := errIndex(f.Signature)
+		nInF := 0
+		eachInstr(f, func(i ssa.Instruction) {
+			cl, ok := i.(*ssa.Call)
+			if !ok {
+				return
+			}
+			cal := staticCallee(cl.Common())
+			if cal == nil || relPkg(cal) != uxPkg || cal.Signature.Results().Len() != 2 || errIndex(cal.Signature) != 1 {
+				return
+			}
+			if rt := cal.Signature.Results().At(0).Type().String(); !strings.Contains(rt, "gosym.Sym") && !strings.Contains(rt, "gosym.Func") {
+				return
+			}
+			var e ssa.Value
+			for _, ref := range *cl.Referrers() {
+				if ex, ok := ref.(*ssa.Extract); ok && ex.Index == 1 {
+					e = ex
+				}
+			}
+			if e == nil {
+				return
+			}
+			isE := func(v ssa.Value) bool { return v == e }
+			// the branch on e
+			for _, ref := range *e.Referrers() {
+				bo, ok := ref.(*ssa.BinOp)
+				if !ok || (bo.Op != token.EQL && bo.Op != token.NEQ) || !(isNilConst(bo.X) || isNilConst(bo.Y)) {
+					continue
+				}
+				for _, r2 := range *bo.Referrers() {
+					iff, ok := r2.(*ssa.If)
+					if !ok {
+						continue
+					}
+					nonNil := iff.Block().Succs[1]
+					if bo.Op == token.NEQ {
+						nonNil = iff.Block().Succs[0]
+					}
+					n++
+					nInF++
+					// returns reachable from the non-nil side
+					seen := map[*ssa.BasicBlock]bool{}
+					bad := ""
+					var walk func(b *ssa.BasicBlock)
+					walk = func(b *ssa.BasicBlock) {
+						if seen[b] {
+							return
+						}
+						seen[b] = true
+						switch t := b.Instrs[len(b.Instrs)-1].(type) {
+						case *ssa.Return:
+							rv := retResult(t, ei)
+							if !dependsOn(rv, isE) && !errDerivedFrom(rv, e) {
+								bad = p.Pos(posOf(t))
+							}
+						case *ssa.Panic:
+						default:
+							for _, s2 := range b.Succs {
+								walk(s2)
+							}
+						}
+					}
+					walk(nonNil)
+					r.Check(bad == "", rule, "failed lookup of "+shortName(cal)+" is reported by "+shortName(f)+" #"+itoa2(nInF), p.Pos(posOf(iff)), "every return behind the failing side carries the lookup's error",
+						"a return reached after the symbol lookup failed (at "+bad+") reports no error (the lookup's err is shadowed or dropped): an absent name yields (nil/0, nil) instead of an error")
+				}
+			}
+		})
+	}
+	if n == 0 {
+		r.Und(rule, "lookup errors", "", "no tested by-name lookup found in package unexports2")
+	}
+}
+
+// errDerivedFrom: v is an error built around e (fmt.Errorf / a module constructor that received e).
+func errDerivedFrom(v, e ssa.Value) bool {
+	for _, a := range origins(v) {
+		if cl, ok := a.V.(*ssa.Call); ok {
+			for _, arg := range cl.Call.Args {
+				if arg == e || varargsDependOn(arg, func(x ssa.Value) bool { return x == e }) {
+					return true
+				}
+			}
+		}
+		if a.V == e {
+			return true
 		}
 	}
 	return false
